@@ -26,13 +26,13 @@ import gomboklib as G
 import vf
 
 
-def run_package(c, sc, pkg, structs, order, seed):
+def run_package(c, sc, pkg, structs, order, seed, over=None):
     """a failing stage is confirmed by a second run of the same package (see c07.run_package)"""
-    evs = _run_package_once(c, sc, pkg, structs, order, seed)
+    evs = _run_package_once(c, sc, pkg, structs, order, seed, over)
     g = evs[0]
     if g["deterministic"] and not (g["gombok"] and g["build"] and g["vet"] and g["driver"]):
         shutil.rmtree(os.path.join(sc.root, pkg), ignore_errors=True)
-        evs2 = _run_package_once(c, sc, pkg, structs, order, seed)
+        evs2 = _run_package_once(c, sc, pkg, structs, order, seed, over)
         g2 = evs2[0]
         if g2["gombok"] and g2["build"] and g2["vet"] and g2["driver"]:
             c.extra["unrepeated_stage_failures"] = c.extra.get("unrepeated_stage_failures", []) + [dict(pkg=pkg, msg=g.get("msg", "")[-300:])]
@@ -40,8 +40,8 @@ def run_package(c, sc, pkg, structs, order, seed):
     return evs
 
 
-def _run_package_once(c, sc, pkg, structs, order, seed):
-    types_go, registry = D.go_source(pkg, structs, order)
+def _run_package_once(c, sc, pkg, structs, order, seed, over=None):
+    types_go, registry = D.go_source(pkg, structs, order, over)
     if not os.path.exists(os.path.join(sc.root, "other")):
         os.makedirs(os.path.join(sc.root, "other"))
         with open(os.path.join(sc.root, "other", "types.go"), "w") as fh:
@@ -107,14 +107,20 @@ def run(c):
         else:
             st, order = D.special_structs()
             packages.append(("pd0", st, order))
+            # local instances for composite / library types: a generic EqSlice / CloneSlice, time.Duration under both name forms
+            ost, oorder = D.override_structs()
+            packages.append(("pdo", ost, oorder, dict(slice=True, dur="Duration")))
+            packages.append(("pdq", ost, oorder, dict(dur="TimeDuration")))
             n_pk = 2 if c.tier == "quick" else 16
             for i in range(n_pk):
                 rs, ro = D.gen_structs(rng, 24)
                 packages.append(("pd%d" % (i + 1), rs, ro))
         allev = []
         info = {}
-        for pkg, structs, order in packages:
-            evs = run_package(c, sc, pkg, structs, order, c.seed)
+        for pk in packages:
+            pkg, structs, order = pk[:3]
+            over = pk[3] if len(pk) > 3 else None
+            evs = run_package(c, sc, pkg, structs, order, c.seed, over)
             g = evs[0]
             if not (g["gombok"] and g["build"] and g["vet"] and g["driver"] and g["deterministic"]) and len(order) > 1:
                 # find the structs that break the package: each struct alone with what it depends on
@@ -125,7 +131,7 @@ def run(c):
                     need = closure(structs, [n])
                     sub = [m for m in order if m in need]
                     sst = {m: (structs[m] if m == n else dict(structs[m])) for m in sub}
-                    e1 = run_package(c, sc, "iso" + n.lower(), sst, sub, c.seed)
+                    e1 = run_package(c, sc, "iso" + n.lower(), sst, sub, c.seed, over)
                     shutil.rmtree(os.path.join(sc.root, "iso" + n.lower()), ignore_errors=True)
                     g1 = e1[0]
                     if not (g1["gombok"] and g1["build"] and g1["vet"] and g1["driver"] and g1["deterministic"]):
@@ -140,7 +146,7 @@ def run(c):
                     bad.add(n)
                 if culprits:
                     keep = [m for m in order if not (closure(structs, [m]) & bad)]
-                    evs = run_package(c, sc, pkg + "r", {m: structs[m] for m in keep}, keep, c.seed) if keep else []
+                    evs = run_package(c, sc, pkg + "r", {m: structs[m] for m in keep}, keep, c.seed, over) if keep else []
                 else:
                     evs[0]["structs"] = structs
                     evs[0]["order"] = order
